@@ -114,7 +114,7 @@ def _job(job):
             return state["df"]
         return f
 
-    d = tempfile.mkdtemp(prefix="c11_", dir=lib.WORK)
+    d = lib.workdir("c11_")
     recs = []
     try:
         cfg = make_cfg(spec)
@@ -130,7 +130,7 @@ def _job(job):
         zipfile.io.open = orig_open
         foreign_bytes = {}
         for fs in foreign_specs:
-            d2 = tempfile.mkdtemp(prefix="c11f_", dir=lib.WORK)
+            d2 = lib.workdir("c11f_")
             try:
                 MazeDataset.from_config(make_cfg(fs), local_base_path=Path(d2), do_download=False)
                 (f2,) = [os.path.join(d2, x) for x in os.listdir(d2)]
@@ -170,9 +170,10 @@ def _job(job):
             elif kind == "truncate":
                 open(fn, "wb").write(good[: fault[1] % len(good)])
                 fk = "corrupt"
-            elif kind == "flip":
+            elif kind in ("flip", "fliptail"):
                 b = bytearray(good)
-                b[fault[1] % len(good)] ^= fault[2]
+                pos = fault[1] % len(good) if kind == "flip" else len(good) - 1 - ((fault[1] - 1) % len(good))
+                b[pos] ^= fault[2]
                 open(fn, "wb").write(bytes(b))
                 fk = "corrupt"
             elif kind == "crash":
@@ -232,6 +233,12 @@ def foreign_variants(spec):
     v("ctor_kwargs", ctor_kwargs=dict(spec["ctor_kwargs"], **({"do_forks": False} if spec["ctor"] == "gen_dfs" and "do_forks" not in spec["ctor_kwargs"] else {"p": 0.6} if "p" in spec["ctor_kwargs"] else {})) or spec["ctor_kwargs"])
     v("endpoint_kwargs", endpoint_kwargs=dict(spec["endpoint_kwargs"], endpoints_not_equal=not spec["endpoint_kwargs"].get("endpoints_not_equal", False)))
     v("filters", filters=spec["filters"] + [dict(name="start_end_distance", args=[], kwargs=dict(min_distance=1))])
+    # provenance lists that are prefix-related to the request's, with the (tolerated-in-one-case) trailing metadata collection
+    collect = dict(name="collect_generation_meta", args=[], kwargs={})
+    if collect not in spec["filters"]:
+        v("filters_longer_then_collect", filters=spec["filters"] + [dict(name="path_length", args=[], kwargs=dict(min_length=3)), collect])
+        if spec["filters"]:
+            v("filters_prefix_then_collect", filters=spec["filters"][:-1] + [collect])
     # drop variants that did not actually change anything
     return [s for s in out if any(s[k] != spec[k] for k in ("seed", "grid_n", "ctor", "ctor_kwargs", "endpoint_kwargs", "filters"))]
 
@@ -287,9 +294,12 @@ def main(chk: lib.Check) -> int:
             off = int(rng.integers(0, 97))
             tr = [("truncate", k) for k in range(off, size_guess, 131)] + [("truncate", k) for k in (1, 2, 3, 21, 22, 23)]
             fl = [("flip", k, 0xFF) for k in range(off // 2, size_guess, 149)] + [("flip", k, 0x01) for k in range(off, size_guess, 733)]
+            # the container's own bookkeeping is where a damaged byte is interpreted rather than checksummed: the zip central
+            # directory + end record (the last few hundred bytes) and the first local header are swept densely
+            fl += [("fliptail", k, m) for k in range(1, 449) for m in (0xFF, 0x01)] + [("flip", k, m) for k in range(0, 48) for m in (0xFF, 0x01)]
         # positions are taken modulo the real file size inside the job; duplicates are dropped there by the modulo only in thorough
         allf = base + tr + fl
-        nchunks = 16 if thorough else 4
+        nchunks = 16 if thorough else 8
         for i in range(nchunks):
             jobs.append((spec, allf[i::nchunks], fv))
     outs = lib.pmap(_job, jobs, chunksize=1)
@@ -304,7 +314,7 @@ def main(chk: lib.Check) -> int:
     seen, uniq = set(), []
     for r_ in recs:
         key = (r_["cfg"], json.dumps(r_["fault_detail"]))
-        if r_["fault_detail"][0] in ("truncate", "flip", "crash"):
+        if r_["fault_detail"][0] in ("truncate", "flip", "fliptail", "crash"):
             fd = list(r_["fault_detail"])
             mod = sizes[r_["cfg"]]["file_bytes"] if fd[0] != "crash" else sizes[r_["cfg"]]["low_level_writes"] + 1
             fd[1] = fd[1] % max(mod, 1)
